@@ -2,6 +2,7 @@
 From Coq Require Import List ZArith NArith Bool.
 Import ListNotations.
 From GS Require Import Num EventLoop Kernel Sim.
+From GS Require Import NumZ Sim ExampleKit.
 From GS.Proofs Require Import Aux EventLoopP KernelP KernelP2 SimP SimP2.
 
 (** A whole run from a freshly built simulator, for every handler set, node set, bounds and
@@ -86,6 +87,15 @@ Theorem C05_no_step_after_completion :
   forall (F : Type) (A : ArithOps F) (P H T : Type) (hk : hooks F P H T) (c : kcfg F) (s : kstate F P H) (m : nat),
     k_final s = true \/ k_aborted s = true -> k_steps A hk c m s = (s, [], repeat false m).
 Proof. intros. apply k_steps_after_completion; assumption. Qed.
+
+(** Non-vacuity: one recording handler, one node, one timer -- the whole lifecycle in order. *)
+Definition ex5 (n : nat) (ps : unit) (now : Z) (c : cb Z) : unit * list (action Z) :=
+  match c with CbInit => (tt, [ASetTimer 0 1%Z]) | _ => (tt, []) end.
+Example C05_example :
+  runx (cfgx [HRec 0; HTimer] 1 [(0, 0, 0)%Z] 10%Z 0%Z 0%Z 1%Z 1%Z [] []) ex5 None None 20 =
+  ([THInit 0; TCb 0 0%Z CbInit; TAct 0 (ASetTimer 0 1%Z) Ok; TCb 0 1%Z (CbTimer 0); THAfter 0 0 1%Z;
+    TCb 0 1%Z CbFinish; THFinal 0], true, 0, [(0, 0, 0)%Z]).
+Proof. vm_compute. reflexivity. Qed.
 
 Print Assumptions C05_run_lifecycle.
 Print Assumptions C05_consecutive_iterations.
